@@ -135,14 +135,21 @@ def tasks(tier, seed):
             add("locale-order-off:%s:MDY" % lang, {"order": "MDY", "sep": SEPS[(seed + j + 1) % 4], "explicit": False,
                                                    "languages": [lang], "prefer_locale": False})
     # regional locales whose order differs from their language's
+    # (which locales these are is read from the CLDR sources and the language index, not from the generated modules)
     regional = []
     for lang in langs:
-        info = C.language_info(lang)
-        for loc, v in sorted(info.get("locale_specific", {}).items()):
-            if "date_order" in v and v["date_order"] != info.get("date_order"):
-                regional.append((lang, loc, v["date_order"]))
+        for loc in locale_dict.get(lang, []):
+            o = C.locale_date_order(lang, loc)
+            if o and o != C.locale_date_order(lang):
+                regional.append((lang, loc, o))
     if quick:
-        regional = [regional[(seed * 3 + j) % len(regional)] for j in range(min(2, len(regional)))] if regional else []
+        # per (language, order) group: small groups entirely, large ones by a seed-rotated member
+        groups = {}
+        for lang, loc, o in regional:
+            groups.setdefault((lang, o), []).append((lang, loc, o))
+        regional = []
+        for g in groups.values():
+            regional += g if len(g) <= 3 else [g[(seed + j * 7) % len(g)] for j in range(2)]
     for lang, loc, o in regional:
         add("locale-order:%s:%s" % (loc, o), {"order": o, "sep": "/", "explicit": False, "languages": None, "locales": [loc]})
     return out
